@@ -58,6 +58,8 @@ pub enum Op {
     WExec { n: usize, k: u8 },
     Put { n: usize },
     Restore,
+    /// restore in which a launch-only layer's SBOM files come back with its metadata file
+    RestoreSboms,
 }
 
 #[derive(Serialize, Deserialize, Clone, Debug, PartialEq)]
@@ -384,8 +386,8 @@ impl World {
                     Err(e) => Out::OtherErr(format!("harness put_file: {e}")),
                 }
             }
-            Op::Restore => {
-                let s = restore(&self.snap());
+            Op::Restore | Op::RestoreSboms => {
+                let s = if *op == Op::Restore { restore(&self.snap()) } else { restore_sboms(&self.snap()) };
                 vh::snapshot::force_remove(&self.ctx.layers_dir);
                 std::fs::create_dir(&self.ctx.layers_dir).unwrap();
                 s.materialise(&self.ctx.layers_dir).unwrap();
@@ -636,6 +638,7 @@ pub fn enabled_ops(snap: &Snapshot, live: &BTreeSet<usize>, all_shapes: bool) ->
         }
     }
     out.push(Op::Restore);
+    out.push(Op::RestoreSboms);
     out
 }
 
@@ -663,7 +666,10 @@ pub fn step(snap: &Snapshot, live: &BTreeSet<usize>, rep: &Rep, op: &Op, verbose
                 return Some(("other-layer-touched".into(), format!("{op:?} changed layer {name}: {:?}", layer_raw(&before, name).diff(&layer_raw(&after, name), 4))));
             }
         }
-        let foreign = |s: &Snapshot| s.filter_top(|top| !NAMES.iter().any(|n| top == n.as_bytes() || (top.starts_with(n.as_bytes()) && top.get(n.len()) == Some(&b'.'))));
+        // a layer owns exactly <name>/, <name>.toml and <name>.sbom.<known format>: any other entry of
+        // the layers directory (also one merely named like the layer: backups, temporaries) is foreign
+        let owned = |top: &[u8]| NAMES.iter().any(|n| top == n.as_bytes() || top == format!("{n}.toml").as_bytes() || SBOM_EXTS.iter().any(|e| top == format!("{n}.sbom.{e}").as_bytes()));
+        let foreign = |s: &Snapshot| s.filter_top(|top| !owned(top));
         if foreign(&before) != foreign(&after) {
             return Some(("foreign-file-touched".into(), format!("{op:?} changed files that belong to no requested layer: {:?}", foreign(&before).diff(&foreign(&after), 4))));
         }
@@ -671,7 +677,7 @@ pub fn step(snap: &Snapshot, live: &BTreeSet<usize>, rep: &Rep, op: &Op, verbose
     };
 
     match op {
-        Op::Restore => {
+        Op::Restore | Op::RestoreSboms => {
             new_live.clear();
             new_rep = Rep { start: after.clone(), ops: vec![] };
         }
@@ -898,6 +904,8 @@ pub fn seed_ops() -> Vec<(&'static str, Vec<Op>)> {
     let mut r = rich(1);
     r.push(Op::Restore);
     v.push(("rich(a) with legacy metadata restored", r));
+    // what the spec's restore leaves of a launch-only layer that has an SBOM: toml + SBOM files, no directory
+    v.push(("launch-only b with SBOMs restored (toml and SBOM files, no directory)", vec![Op::Uncached { n: 1, build: false, launch: true }, Op::WMeta { n: 1, k: 0 }, Op::WSbom { n: 1, k: 2 }, Op::RestoreSboms]));
     v
 }
 
@@ -954,7 +962,7 @@ pub fn run(args: &Args) {
     rep.cov("seed_states", n_inits as u64);
     rep.cov("evaluations", r.transitions);
     rep.cov("distinct_nontrivial", r.states.saturating_sub(n_inits as u64));
-    rep.cov("rule", "transitions = real cached_layer/uncached_layer/write_*/restore executions from distinct (layers-dir snapshot, live refs) states, BFS from 5 seeded states built by real operations; distinct_nontrivial = distinct non-seed states reached (each judged against the reference model after the transition that produced it)");
+    rep.cov("rule", "transitions = real cached_layer/uncached_layer/write_*/restore executions from distinct (layers-dir snapshot, live refs) states, BFS from 6 seeded states built by real operations; distinct_nontrivial = distinct non-seed states reached (each judged against the reference model after the transition that produced it)");
     rep.cov("bound", json!({"depth": depth, "names": NAMES, "requests": "cached x {(build),(launch)} x {Generic,V1} x restored{Keep,Delete,Err} / invalid{Delete,Replace->restored,Err} x IntoAction shapes; uncached x 3 flag sets", "writes": "metadata 5 (3 values, one TOML cannot represent, None), env 4 (all scopes incl. 2 processes), sboms 3, exec.d 4 (incl. missing source), plain file", "shapes": if args.thorough() {"all 4 per request"} else {"rotated with (name,flags,type)"}}));
     rep.cov("exhaustive", r.cap_hit.is_none());
     if let Some(c) = &r.cap_hit {
@@ -962,7 +970,7 @@ pub fn run(args: &Args) {
     }
     rep.sample(json!({"deepest_path": r.deepest_path}));
     rep.sample(json!({"seed": seed_ops()[3].0, "ops": seed_ops()[3].1}));
-    rep.assume("simulated lifecycle restore: cache=true keeps dir+toml(without types)+SBOMs; launch-only keeps toml only; everything else vanishes");
+    rep.assume("simulated lifecycle restore, two variants as separate operations: cache=true keeps dir+toml(without types)+SBOMs; launch-only keeps toml only (Restore) or toml + SBOM files (RestoreSboms, the spec's wording for launch layers); everything else vanishes");
     rep.assume("a LayerRef carries no mutable state (name, layers dir), so a state is (directory snapshot, set of layers with a live ref) - validated on every run by the ref-staleness differential (7x7 request pairs x 5 writes through the earlier and the latest reference); each transition re-creates the refs by replaying the current build's operations and asserts the replay reproduces the state");
     rep.finish();
 }
